@@ -141,6 +141,41 @@ def collapse(names):
     return out
 
 
+def symbols_of_file(filehex):
+    """[(name, byte offset)] of the debug section of a binary file (length word, image, string table, symbol table)"""
+    b = bytes.fromhex(filehex)
+    if len(b) < 4:
+        return None
+    n = int.from_bytes(b[0:4], "little") * 4
+    d = b[4 + n:]
+    if len(d) < 4:
+        return []
+    ns = int.from_bytes(d[0:4], "little")
+    pos = 4
+    names = []
+    for _ in range(ns):
+        e = d.find(b"\0", pos)
+        if e < 0:
+            return None
+        names.append(d[pos:e].decode("latin1"))
+        pos = e + 1
+    if pos + 4 > len(d):
+        return None
+    nsym = int.from_bytes(d[pos:pos + 4], "little")
+    pos += 4
+    out = []
+    for _ in range(nsym):
+        if pos + 8 > len(d):
+            return None
+        si = int.from_bytes(d[pos:pos + 4], "little")
+        off = int.from_bytes(d[pos + 4:pos + 8], "little")
+        pos += 8
+        if si >= len(names):
+            return None
+        out.append((names[si], off))
+    return out
+
+
 def call_sequence_check(tier, seed, rng):
     hx = C.build_harness("h_xcmp", extra_srcs=["hex.cpp"])
     hs = C.build_harness("h_sim", extra_srcs=["hex.cpp"])
@@ -166,6 +201,23 @@ def call_sequence_check(tier, seed, rng):
         f = o.split(" ")
         if f[0] == "ok" and len(f) >= 3 and f[2].startswith("bin=") and f[2] != "bin=-":
             binhex[k] = f[2][4:]
+    # clause (a) on compiler output: the table of the file lists EVERY procedure and function of the source once
+    # (called or not), in ascending offsets
+    table_checked = 0
+    table_bad = []
+    first_case = {}
+    for i in idx:
+        first_case.setdefault(sexps[i], i)
+    for k, hx_ in binhex.items():
+        prog = cases[first_case[k]][0]
+        want_names = sorted(p["name"] for p in prog["procs"])
+        tab = symbols_of_file(hx_)
+        table_checked += 1
+        offs = [o for _, o in tab] if tab is not None else []
+        if tab is None or sorted(n for n, _ in tab) != want_names or offs != sorted(offs):
+            table_bad.append({"property": "C15", "clause": "a", "seed": seed, "source": srcs[k][:3000], "program": prog,
+                              "procedures_of_the_source": want_names, "symbol_table_of_the_file": tab,
+                              "note": "the symbol table written into the binary must list every procedure and function once"})
     todo = [i for i in idx if sexps[i] in binhex]
     lines = [f"run 0 1 1 {SIM_FUEL} 00 {binhex[sexps[i]]} {cases[i][1].hex() or '-'} {cases[i][2]}" for i in todo]
     sims = C.drive_parallel(hs, lines, workdir=True, timeout_per_case=60.0)
@@ -206,7 +258,7 @@ def call_sequence_check(tier, seed, rng):
     return {"programs": nprog, "cases_defined": len(idx), "compiled": len(binhex), "checked": checked, "skipped_runs": skipped,
             "procedure_entries_compared": entries, "cases_with_order_open_calls": order_open_cases,
             "cases_where_real_order_differs_from_left_to_right": reordered, "trace_lines": tracelines, "cases_with_repeated_callee": recursive,
-            "mismatches": mismatches,
+            "mismatches": mismatches, "symbol_tables_checked": table_checked, "symbol_table_mismatches": table_bad,
             "sample": {"source": G.to_source(cases[todo[0]][0])[:1500], "calls": refs[todo[0]].split("calls=", 1)[-1][:300]} if todo else {}}
 
 
